@@ -1,6 +1,6 @@
 # C11 -- promise chains deliver every outcome exactly once (combinator kernels)
 OFFSETS = ['harness/offsets_async.cc']
-ROOTS = ['c11_all2_resolve0', 'c11_all2_resolve1', 'c11_all2_reject', 'c11_all3_resolve0', 'c11_all3_resolve1', 'c11_all3_resolve2', 'c11_all3_resolvevoid', 'c11_all3_reject',
+ROOTS = ['c11_all2_init', 'c11_all3_init', 'c11_any_init', 'c11_all2_resolve0', 'c11_all2_resolve1', 'c11_all2_reject', 'c11_all3_resolve0', 'c11_all3_resolve1', 'c11_all3_resolve2', 'c11_all3_resolvevoid', 'c11_all3_reject',
          'c11_any_resolve', 'c11_any_resolvevoid', 'c11_any_reject']
 UNITS = {'comb': dict(src='harness/w_c11.cc', mode='sel', roots=ROOTS, stubs_re=r'^_ZNK8Pistache5Async(8Resolver|9Rejection)cl|^_ZN8Pistache5Async7Private4Core9constructI')}
 UNITS['range'] = dict(src='harness/w_c11r.cc', mode='sel', roots=['c11_war_ctor', 'c11_war_fulfil'], stubs_re=r'^_ZNK8Pistache5Async(8Resolver|9Rejection)cl')
